@@ -551,6 +551,20 @@ fn apply_overrides(state: &mut minidump_processor::ProcessState, x: &mut Toks) {
                     fr.inlines.push(minidump_unwind::InlineFrame { function_name, source_file_name, source_line });
                 }
             }
+            // deep thread: thread t gets exactly n frames (cheap synthetic frames: the last frame repeated; fewer: truncated; a thread
+            // without frames stays empty) - the walker has no frame limit, so runaway recursion gives such states
+            "deep" => {
+                let (t, n) = (x.usize(), x.usize());
+                if let Some(th) = state.threads.get_mut(t) {
+                    if n < th.frames.len() {
+                        th.frames.truncate(n);
+                    } else if let Some(last) = th.frames.last().cloned() {
+                        while th.frames.len() < n {
+                            th.frames.push(last.clone());
+                        }
+                    }
+                }
+            }
             "nobootargs" => {
                 if let Some(b) = state.mac_boot_args.as_mut() {
                     b.bootargs = None;
